@@ -126,7 +126,10 @@ class Report:
             w = dict(v)
             w["property"] = self.property_id
             w["rule"] = f"{prefix}/{v['rule']}"
-            w.setdefault("origin", [v["property"], v["rule"]])
+            if "origin" not in w:
+                last = v["rule"].split("/")[-1]  # R19.1 -> the rule is owned by C19
+                owner = "C" + last[1:3] if len(last) >= 3 and last[0] == "R" and last[1:3].isdigit() else v["property"]
+                w["origin"] = [owner, last]
             self.violations.append(w)
         for n in other.notes:
             self.notes.append(n)
